@@ -1232,6 +1232,12 @@ class Interp:
         if fi is None:
             raise PathAbort(f"constructor of {cls}", self.ctx.cur_line)
         obj = Rec(cls)
+        ab = getattr(self, "abstract_calls", None)
+        if ab and fi.qualname in ab:
+            # the contract under verification supplies an abstract semantics for this constructor (listed as an assumption)
+            self.ctx.trusted.add(f"abstract callee: {fi.qualname} ({getattr(ab[fi.qualname], '__doc__', '') or 'see contract'})")
+            ab[fi.qualname](self, pos, kw, obj)
+            return obj
         c = self.contracts.get(fi.qualname)
         if c is not None and not self._is_target(fi.qualname):
             return c.apply(self, pos, kw, self_val=obj, constructing=True)
